@@ -5,7 +5,12 @@
      C04_sound : forall cfg s q, m_compile cfg s = Ok q -> rfc_query s
      C04_reject: forall cfg s, ~ rfc_query s -> exists c o, m_compile cfg s = Err c o
 
-   What is proved below is the correctness of the executable oracle that decides "s is derivable from the
+   Proved at the level of TOKENS (C04_parser_sound, C04_parser_exact below): for every token list of the shape the lexer
+   produces, Parser.parse returns a query only if the typed token-level grammar QT derives the tokens for that query, and
+   (with C05_complete_tokens) exactly then.  What remains unproved is the lexical layer: that the lexer's token list has that
+   shape and that its tokens and the blank space between them spell a string of the ABNF.
+
+   Also proved below: the correctness of the executable oracle that decides "s is derivable from the
    RFC 9535 ABNF" for every input the check generates: it is sound, and complete for all sufficiently large
    fuel (so a positive answer is a theorem about the grammar; a negative answer of the executable depends on
    the fuel bound, which thorough runs re-check at three times the fuel).  The check runs the real compile(),
@@ -37,6 +42,39 @@ Definition ex_text : str :=
   [36;46;97;91;63;99;111;117;110;116;40;64;46;42;41;32;62;61;32;49;32;38;38;32;33;64;91;39;92;117;48;48;54;50;39;93;93]%N.
 Example C04_example : rfc_query ex_text.
 Proof. apply in_rfc_sound. vm_compute. reflexivity. Qed.
+
+(* Parser.parse is sound for the token-level grammar.  For every registry and range, every token list  ROOT, t, e  in which
+   only the last token e is EOF, every INDEX token is an optional minus sign and digits, and every ".." is followed by a
+   name, "*" or "[" (three facts the lexer guarantees; wf): if Parser.parse returns the query q then QT derives t for q -
+   bracket structure, separators, slices, the precedence of ! && || and comparisons, parentheses, the typing rules and the
+   integer range.  Proofs/ParseSound.v: one statement per parse function about the tokens it consumed and the stream it
+   leaves, by induction on the fuel. *)
+From JP Require Import Model.Tokens Model.Ast Model.Parse Proofs.Requery Proofs.ParseComplete Proofs.ParseSound.
+Theorem C04_parser_sound : forall cfg root t e q s, ty root = T_ROOT -> wf (t ++ [e]) ->
+  p_parse cfg (root :: t ++ [e]) = POk q s -> QT cfg q t.
+Proof. exact parse_sound. Qed.
+Print Assumptions C04_parser_sound.
+
+(* the hypotheses are satisfiable: ROOT, the tokens of  ..['a', 1:][?@ == 1] , EOF *)
+Example C04_parser_sound_nonvacuous :
+  let t := [tk T_DOUBLE_DOT [] 1; tk T_LBRACKET [] 3; tk T_SQ_STRING [97%N] 4; tk T_COMMA [] 7; tk T_INDEX [49%N] 9; tk T_COLON [] 10; tk T_RBRACKET [] 11;
+            tk T_LBRACKET [] 12; tk T_FILTER [] 13; tk T_CURRENT [] 14; tk T_EQ [] 16; tk T_INT [49%N] 19; tk T_RBRACKET [] 20] in
+  wf (t ++ [tk T_EOF [] 21]).
+Proof.
+  cbn [app wf ty tk tval]. repeat split; try discriminate; try (intros _; unfold seghd; auto; fail).
+  all: try (intros E; discriminate E).
+  all: try (intros _; exists [], [49%N]; repeat split; auto; discriminate).
+Qed.
+
+(* with C05_complete_tokens: the parser accepts exactly the token lists the grammar derives, and returns the derived query *)
+Theorem C04_parser_exact : forall cfg t q v0 i0 v1 i1, wf (t ++ [tk T_EOF v1 i1]) ->
+  ((exists s, p_parse cfg (tk T_ROOT v0 i0 :: t ++ [tk T_EOF v1 i1]) = POk q s) <-> QT cfg q t).
+Proof.
+  intros cfg t q v0 i0 v1 i1 W. split.
+  - intros [s H]. exact (parse_sound cfg (tk T_ROOT v0 i0) t (tk T_EOF v1 i1) q s eq_refl W H).
+  - intros H. exact (parse_complete cfg q t v0 i0 v1 i1 H).
+Qed.
+Print Assumptions C04_parser_exact.
 
 (* the lexer's regular expressions and ESCAPES in the model are the ones REGENERATED from lex.py on this run *)
 From JP Require Import Proofs.TieLex Proofs.TieParse Gen.LexConst Model.Lex.
